@@ -163,7 +163,8 @@ package storage
 //@   modifies k[*]
 //@   ensures old(k[0]) != 1 <==> result != nil
 //@   ensures result == nil ==> be32(k, 1) == uint32(instance) && be32(k, len(k) - 9) == uint32(version) && be32(k, len(k) - 5) == uint32(client)
-//@   ensures result == nil ==> (forall j int :: 5 <= j && j < len(k) - 9 ==> k[j] == old(k[j])) && k[len(k)-1] == old(k[len(k)-1]) && k[0] == 1
+//@   ensures result == nil ==> (forall j int :: 5 <= j && j < len(k) - 9 ==> k[j] == old(k[j]))
+//@   ensures result == nil ==> k[len(k)-1] == old(k[len(k)-1]) && k[0] == 1
 
 //@ func MaxVersionDataKeyFromKey
 //@   prop C06 C05
